@@ -15,7 +15,49 @@ static const parser p(list, terms(number, ','), nterms(list), rules(
     list(list, ',', number) >= [](int l, skip, const auto& sv) { return l * 10 + to_int(sv); },
     list(list, error, number) >= [](int l, skip, const auto& sv) { return l * 100 + to_int(sv); }));
 struct ctx { int unused = 0; };
+// a context handed over as an RVALUE to functors that take it BY VALUE: whatever the library does with it (it forwards it, so the
+// first contextual reduction moves from it), it must be the same through every overload, stream kind and verbosity
+struct voucher { explicit voucher(int b) : bonus(b) {} voucher(const voucher&) = default; voucher(voucher&& o) noexcept : bonus(o.bonus) { o.bonus = 0; } voucher& operator=(const voucher&) = default; int bonus; };
+constexpr nterm<int> vsum("vsum"); constexpr nterm<int> vnum("vnum");
+static const parser pv(vsum, terms('+', number), nterms(vsum, vnum), rules(
+    vsum(vsum, '+', vnum) >= [](int a, skip, int b) { return a + b; },
+    vsum(vnum),
+    vnum(number) >>= [](voucher v, std::string_view sv) { return to_int(sv) + v.bonus; }));
+constexpr nterm<std::string> names("names"); constexpr nterm<std::string> name("name");
+constexpr char word_pat[] = "[a-z]+"; constexpr regex_term<word_pat> word("word");
+static const parser pn(names, terms(',', word), nterms(names, name), rules(
+    names(names, ',', name) >= [](std::string&& a, skip, std::string&& b) { return a + "," + b; },
+    names(name),
+    name(word) >>= [](std::string prefix, std::string_view w) { return prefix + std::string(w); }));
+// a lexical conflict (keyword against identifier pattern): the first listed term wins, with verbose on or off
+constexpr string_term kw_let("let");
+constexpr nterm<int> prog("prog"); constexpr nterm<int> item("item");
+static const parser pl(prog, terms(kw_let, word), nterms(prog, item), rules(
+    prog(item), prog(prog, item) >= [](int a, int b) { return a * 10 + b; },
+    item(kw_let) >= [](const auto&) { return 1; }, item(word) >= [](const auto&) { return 2; }));
+template<class T> static std::string show(const std::optional<T>& r) { std::ostringstream o; if (r) o << *r; else o << "<none>"; return o.str(); }
+template<class P, class MakeCtx> static void all_overloads(const char* what, const P& q, MakeCtx mk, const std::string& in) {
+  std::vector<std::pair<const char*, std::string>> r; std::stringstream s1, s2, s3; utils::no_stream ns;
+  r.push_back({"context_parse(rvalue ctx, buffer)", show(q.context_parse(mk(), string_buffer(std::string(in))))});
+  r.push_back({"context_parse(rvalue ctx, buffer, stream)", show(q.context_parse(mk(), string_view_buffer(in), s1))});
+  r.push_back({"context_parse(rvalue ctx, options, buffer, stream)", show(q.context_parse(mk(), parse_options{}, string_buffer(std::string(in)), s2))});
+  r.push_back({"context_parse(rvalue ctx, options.verbose, buffer, stream)", show(q.context_parse(mk(), parse_options{}.set_verbose(), string_buffer(std::string(in)), s3))});
+  r.push_back({"context_parse(rvalue ctx, options, buffer, no_stream)", show(q.context_parse(mk(), parse_options{}, string_view_buffer(in), ns))});
+  r.push_back({"context_parse(rvalue ctx, options.verbose, buffer, no_stream)", show(q.context_parse(mk(), parse_options{}.set_verbose(), string_view_buffer(in), ns))});
+  for (auto& x : r) if (x.second != r[1].second) { ++fails; std::cout << "FAIL " << what << " on '" << in << "': " << x.first << " gives " << x.second << " but " << r[1].first << " gives " << r[1].second << "\n"; }
+}
 int main() {
+  for (std::string in : { "1", "1+2", "1+2+3", "4 + 5 + 6 + 7", "1+", "" }) all_overloads("by-value context", pv, [] { return voucher(100); }, in);
+  for (std::string in : { "a", "a,b", "a,b,c", "a,,b" }) all_overloads("by-value string context", pn, [] { return std::string("pre_"); }, in);
+  for (std::string in : { "let", "abc", "let abc", "abc let", "let let", "lets let", "le let", "letx" }) {
+    std::stringstream q1, q2; utils::no_stream ns;
+    auto a = pl.parse(parse_options{}, string_buffer(std::string(in)), q1), b = pl.parse(parse_options{}.set_verbose(), string_buffer(std::string(in)), q2);
+    auto c2 = pl.parse(parse_options{}.set_verbose(), string_view_buffer(in), ns), d = pl.parse(string_view_buffer(in));
+    if (show(a) != show(b) || show(a) != show(c2) || show(a) != show(d)) { ++fails; std::cout << "FAIL lexical conflict on '" << in << "': quiet " << show(a) << ", verbose " << show(b) << ", verbose/no_stream " << show(c2) << ", no options " << show(d) << "\n"; }
+    int want = 0; { std::stringstream ws(in); std::string w; while (ws >> w) want = want * 10 + (w == "let" ? 1 : 2); }
+    if (show(a) != std::to_string(want)) { ++fails; std::cout << "FAIL lexical conflict on '" << in << "': got " << show(a) << ", first-listed/longest-match gives " << want << "\n"; }
+  }
+
   std::vector<std::string> ins = { "1,2,3", "1, 2 ,\n3", " 1 , 2", "1,,2", "1 2", "1,?", "", "\t7\n", "1;2" };
   for (auto& in : ins) {
     std::vector<std::pair<const char*, std::optional<int>>> r; std::stringstream s1, s2, s3, s4; utils::no_stream ns; ctx c;
